@@ -1454,6 +1454,8 @@ func run(a *Args) error {
 	runShapes(a, w, &id)
 	// configuration family around the timestamping revocation validator (Go side, valid RFC 3161 countersignatures)
 	runTSConfig(a, w, &id, e)
+	// CRL cache entries made of hand-built CRLs (shapes crypto/x509 parses but never produces)
+	runCRLEntries(a, w, &id)
 	w.Set("partial", "the theorems cover the nil-ability lattice of notation-go's own structures (configuration x level x entry point x what the dependencies answer) and the size caps of the registry client; crash-freedom of the third-party decoders (notation-core-go JWS/COSE, encoding/json, fxamacker/cbor, crypto/x509, oras-go, tspclient-go) on arbitrary bytes is a runtime fact that is explored (exploration_* keys), not proved")
 	w.Set("part1", "nil-ability lattice: evaluated in Coq against C12_Model (model = implementation, and the oracle spec_ok on the implementation's observation)")
 	if err := explore(a, rng, w, id); err != nil {
